@@ -37,6 +37,18 @@ def schedules(max_len=120):
     return st.one_of(walk, pct, pre)
 
 
+# kinds of scheduling points a canceller can wait for: it runs right before
+# the effect of the nth one (the io thread is then inside its task, past the
+# task's own done() check)
+CANCEL_POINTS = ['fs.write', 'fs.write', 'dst.write', 'dst.write',
+                 'fs.rename', 'fs.close', 'fs.open', 'fs.remove', 'fs.seek',
+                 'dst.seek', 'body.read', 'src.read', 'executor.submit',
+                 's3.upload_part.end', 's3.create_multipart_upload.end',
+                 's3.complete_multipart_upload.begin',
+                 's3.abort_multipart_upload.begin', 's3.get_object.end',
+                 's3.head_object.end', 'worker.next']
+
+
 def dense_schedules():
     """Schedules for dense-line cases (many more real choices per run):
     PCT with later change points, or up to six preemptions placed anywhere
@@ -374,7 +386,12 @@ def e2e_cases(draw, profile):
                 # transfer's own S3 calls (lands mid-transfer by construction)
                 st.fixed_dictionaries({'t': st.integers(0, n - 1),
                                        'at': st.just(0),
-                                       'calls': st.integers(1, 9)})),
+                                       'calls': st.integers(1, 9)}),
+                *([st.fixed_dictionaries({
+                    't': st.integers(0, n - 1), 'at': st.just(0),
+                    'point': st.sampled_from(CANCEL_POINTS),
+                    'nth': st.integers(0, 6)})]
+                  if profile.get('cancel_points') else [])),
             min_size=profile.get('min_cancels', 0),
             max_size=profile['cancels']))
     if profile.get('kbi'):
